@@ -170,14 +170,12 @@ Definition validated (cf : config) (now : Z) (c : claims) : bool :=
   already_valid cf now c && not_expired cf now c && not_issued_in_future cf now c.
 
 Lemma validate_spec f1 f2 cf now c :
-  sane_clock cf now -> guards_ok f1 f2 c -> g5 cf c = false ->
+  sane_clock cf now -> guards_ok f1 f2 c ->
   is_none (validate f1 f2 (effective cf) now c) = validated cf now c.
 Proof.
-  intros Hs G G5. unfold validate, validated, audience_ok.
+  intros Hs G. unfold validate, validated, audience_ok.
   rewrite eff_issuers, eff_aud, effective_scopes, (validity_spec f1 f2), (iat_spec f1 f2) by assumption.
-  unfold g5 in G5. destruct (String.eqb (c_iss c) "") eqn:E0; simpl in *.
-  { apply String.eqb_eq in E0. rewrite E0, G5. reflexivity. }
-  clear G5.
+  destruct (String.eqb (c_iss c) "") eqn:E0; simpl in *; [reflexivity|].
   destruct (mem (c_iss c) (trusted_issuers cf)); simpl; [|reflexivity].
   destruct (is_nil (expected_audiences cf)); simpl.
   - destruct (already_valid cf now c && not_expired cf now c) eqn:V; simpl.
@@ -215,12 +213,12 @@ Qed.
 
 Lemma verify_with_key_spec f1 f2 cf now t k :
   mem (t_alg t) supported_algs = true ->
-  sane_clock cf now -> guards_ok f1 f2 (t_claims t) -> g5 cf (t_claims t) = false ->
+  sane_clock cf now -> guards_ok f1 f2 (t_claims t) ->
   is_none (verify_with_key f1 f2 (effective cf) now t k) =
   String.eqb (k_alg k) (t_alg t) && mem (k_alg k) (allowed_algs cf) && sig_ok t k &&
   claims_acceptable cf now (t_claims t).
 Proof.
-  intros Hsup Hs G G5. unfold verify_with_key.
+  intros Hsup Hs G. unfold verify_with_key.
   rewrite (supported_nonempty _ Hsup), eff_algs, claims_acceptable_split. simpl.
   destruct (String.eqb (k_alg k) (t_alg t)); simpl; [|reflexivity].
   destruct (mem (k_alg k) (allowed_algs cf)); simpl; [|reflexivity].
@@ -233,7 +231,7 @@ Qed.
 
 Lemma key_acceptable_split f1 f2 cf now t k :
   mem (t_alg t) supported_algs = true ->
-  sane_clock cf now -> guards_ok f1 f2 (t_claims t) -> g5 cf (t_claims t) = false ->
+  sane_clock cf now -> guards_ok f1 f2 (t_claims t) ->
   key_valid cf k && is_none (verify_with_key f1 f2 (effective cf) now t k) =
   key_acceptable cf t k && claims_acceptable cf now (t_claims t).
 Proof.
@@ -265,12 +263,12 @@ Proof. intro H. induction l as [|x r IH]; simpl; [reflexivity|]. rewrite H, IH. 
 (** verifyToken succeeds exactly when the specification's key and claim conditions hold *)
 Lemma verify_token_spec f1 f2 cf ks now t :
   mem (t_alg t) supported_algs = true ->
-  sane_clock cf now -> guards_ok f1 f2 (t_claims t) -> g5 cf (t_claims t) = false ->
+  sane_clock cf now -> guards_ok f1 f2 (t_claims t) ->
   is_none (verify_token f1 f2 cf ks now t) =
   t_payload_obj t && remote_up cf && existsb (key_acceptable cf t) (candidate_keys ks t) &&
   claims_acceptable cf now (t_claims t).
 Proof.
-  intros Hsup Hs G G5. unfold verify_token, remote_up, candidate_keys.
+  intros Hsup Hs G. unfold verify_token, remote_up, candidate_keys.
   destruct (t_payload_obj t); simpl; [|reflexivity].
   destruct (cf_remote cf); simpl; try reflexivity.
   destruct (String.eqb (t_kid t) "").
@@ -281,7 +279,7 @@ Proof.
     destruct (existsb (key_acceptable cf t) ks && claims_acceptable cf now (t_claims t)); reflexivity.
   - unfold get_key.
     destruct (filter (fun k => String.eqb (k_kid k) (t_kid t)) ks) as [|k [|k' r]]; simpl; try reflexivity.
-    pose proof (key_acceptable_split f1 f2 cf now t k Hsup Hs G G5) as E.
+    pose proof (key_acceptable_split f1 f2 cf now t k Hsup Hs G) as E.
     destruct (key_valid cf k) eqn:V; simpl in *.
     + rewrite E. rewrite orb_false_r. reflexivity.
     + rewrite orb_false_r. rewrite <- E. reflexivity.
@@ -293,14 +291,14 @@ Definition cred_guards_ok (f1 f2 : bool) (cr : cred) : Prop :=
   match cr with CToken t => guards_ok f1 f2 (t_claims t) | _ => True end.
 
 Theorem authenticate_gen_spec f1 f2 cf ks now cr :
-  sane_clock cf now -> cred_guards_ok f1 f2 cr -> guard_F5 cf cr = false ->
+  sane_clock cf now -> cred_guards_ok f1 f2 cr ->
   accepted_sub (authenticate_gen f1 f2 cf ks now cr) = spec_accepts cf ks now cr.
 Proof.
-  intros Hs G G5. destruct cr as [| |t]; try reflexivity.
+  intros Hs G. destruct cr as [| |t]; try reflexivity.
   unfold authenticate_gen, spec_accepts, subject_id.
   change parsable_algs with supported_algs.
   destruct (mem (t_alg t) supported_algs) eqn:Hsup; simpl; [|reflexivity].
-  pose proof (verify_token_spec f1 f2 cf ks now t Hsup Hs G G5) as E.
+  pose proof (verify_token_spec f1 f2 cf ks now t Hsup Hs G) as E.
   destruct (verify_token f1 f2 cf ks now t) as [e|]; simpl in E.
   - rewrite <- E. reflexivity.
   - rewrite <- E. simpl.
@@ -308,12 +306,12 @@ Proof.
 Qed.
 
 (** The authenticator as it is creates a subject exactly when the specification does,
-    and it is the specification's subject (outside the open findings C05-F3 and C05-F5). *)
+    and it is the specification's subject (outside the open finding C05-F3). *)
 Theorem authenticate_spec cf ks now cr :
   sane_clock cf now -> open_guards cf cr = false ->
   accepted_sub (authenticate cf ks now cr) = spec_accepts cf ks now cr.
 Proof.
-  intros Hs G. apply orb_false_iff in G as [G G5]. apply authenticate_gen_spec; [exact Hs| |exact G5].
+  intros Hs G. unfold open_guards in G. apply authenticate_gen_spec; [exact Hs|].
   destruct cr as [| |t]; simpl in *; try exact I.
   destruct (c_exp (t_claims t)) as [e|]; [|discriminate].
   intro E. injection E as ->. rewrite Z.eqb_refl in G. discriminate.
@@ -321,10 +319,10 @@ Qed.
 
 (** The authenticator as it was before a3a89b7 / f16c3cc did so outside C05-F1 and C05-F2. *)
 Theorem pinned_spec cf ks now cr :
-  sane_clock cf now -> guard_F1 cr = false -> guard_F2 cr = false -> guard_F5 cf cr = false ->
+  sane_clock cf now -> guard_F1 cr = false -> guard_F2 cr = false ->
   accepted_sub (authenticate_pinned cf ks now cr) = spec_accepts cf ks now cr.
 Proof.
-  intros Hs G1 G2 G5. apply authenticate_gen_spec; [exact Hs| |exact G5].
+  intros Hs G1 G2. apply authenticate_gen_spec; [exact Hs|].
   destruct cr as [| |t]; simpl; [exact I | exact I | split; assumption].
 Qed.
 
@@ -499,7 +497,8 @@ Proof.
   destruct (mem (k_alg k) (e_algs e)) eqn:E2; simpl; [|discriminate].
   destruct (sig_ok t k) eqn:E3; simpl; [|discriminate].
   destruct (c_malformed (t_claims t)) eqn:E4; simpl; [discriminate|].
-  unfold validate. destruct (mem (c_iss (t_claims t)) (e_issuers e)) eqn:E5; simpl; [|discriminate].
+  unfold validate. destruct (String.eqb (c_iss (t_claims t)) "") eqn:E6; simpl; [discriminate|].
+  destruct (mem (c_iss (t_claims t)) (e_issuers e)) eqn:E5; simpl; [|discriminate].
   intros _. splits; try reflexivity.
   - apply String.eqb_eq; exact E1.
   - apply mem_In; exact E2.
@@ -671,10 +670,11 @@ Proof.
   split; [exact ex_sane|]. vm_compute. splits; reflexivity.
 Qed.
 
-(** C05-F5 (open): metadata without issuer, no issuers configured: a correctly signed token without `iss` is accepted *)
-Theorem F5_refuted :
-  exists cf ks now cr, sane_clock cf now /\ guard_F3 cr = false /\ guard_F5 cf cr = true /\
-    accepted_sub (authenticate cf ks now cr) = Some "alice"%string /\ spec_accepts cf ks now cr = None.
+(** C05-F5 (repaired by d55629a): metadata without issuer, no issuers configured, so "" is the only trusted
+    issuer: a correctly signed token without `iss` is refused *)
+Example F5_fixed :
+  exists cf ks now cr, sane_clock cf now /\ guard_F5 cf cr = true /\
+    authenticate cf ks now cr = Failed EAssertion /\ spec_accepts cf ks now cr = None.
 Proof.
   exists {| cf_proto := {| e_issuers := []; e_scopes := None; e_aud := []; e_algs := []; e_leeway := 0 |};
             cf_rule := None; cf_md_issuer := ""; cf_validate_jwk := true; cf_id_from := "sub"; cf_remote := RUp |},
